@@ -38,7 +38,7 @@ func vLex(l *Lexer, lval *yySymType) int {
 var vSpell = map[string]int{
 	"(": LPAREN, ")": RPAREN, "[": LBRACKET, "]": RBRACKET, ".": MAIN_CHAIN, "@": MAIN_CHAIN, "$": MAIN_CHAIN,
 	":=": ASSIGN, "=>": RIGHT_ASSIGN, "+=": COMPOUND_ASSIGN, "if": IF, "else": ELSE, "return": RETURN, "raise": RAISE, "yield": YIELD, "defer": DEFER,
-	",": COMMA, "!": BANG, "~": ADD_CHAIN,
+	",": COMMA, "!": BANG, "~": ADD_CHAIN, "/~": BIT_NOT,
 	"**": DOUBLE_STAR, "*": STAR, "/": SLASH, "//": DOUBLE_SLASH, "%": PERCENT, "+": PLUS, "-": MINUS,
 	"<<": BIT_LSHIFT, ">>": BIT_RSHIFT, "/&": BIT_AND, "/|": BIT_OR, "/^": BIT_XOR,
 	"<=>": SPACESHIP, "==": EQ, "!=": NEQ, "===": TOPIC_EQ, "!==": TOPIC_NEQ, "<": LT, "<=": LE, ">": GT, ">=": GE,
@@ -103,7 +103,7 @@ func vIsOperand(w string) bool {
 // vIsPrefixAt: is words[i] a prefix operator (an operator token in operand position)?
 func vIsPrefixAt(words []string, i int) bool {
 	w := words[i]
-	if w != "-" && w != "!" && w != "+" {
+	if w != "-" && w != "!" && w != "+" && w != "/~" {
 		return false
 	}
 	return i == 0 || !vIsOperand(words[i-1])
@@ -166,7 +166,7 @@ func vGroup(atoms [][]string, ops []string) []string {
 }
 
 var vAtoms = [][]string{
-	{"a"}, {"7"}, {"f", "(", "a", ")"}, {"a", "[", "b", "]"}, {"(", "a", ")"}, {"-", "a"}, {"a", ".", "p"}, {"!", "a"}, {"a", "@", "p", "(", "b", ")"},
+	{"a"}, {"7"}, {"f", "(", "a", ")"}, {"a", "[", "b", "]"}, {"(", "a", ")"}, {"-", "a"}, {"a", ".", "p"}, {"!", "a"}, {"a", "@", "p", "(", "b", ")"}, {"+", "a"}, {"/~", "a"},
 }
 
 func vFlat(atoms [][]string, ops []string) []string {
@@ -217,14 +217,14 @@ type vTemplate struct {
 }
 
 var vTemplates = []vTemplate{
-	{"- a . p", "( - a ) . p", "a prefix operator binds tighter than a chain"},
-	{"- a OP1 b", "( - a ) OP1 b", "a prefix operator binds tighter than any infix operator"},
-	{"! a OP1 b", "( ! a ) OP1 b", "a prefix operator binds tighter than any infix operator"},
+	{"PFX a . p", "( PFX a ) . p", "a prefix operator binds tighter than a chain"},
+	{"PFX a OP1 b", "( PFX a ) OP1 b", "a prefix operator binds tighter than any infix operator"},
+	{"PFX a @ p ( b ) OP1 c", "( ( PFX a ) @ p ( b ) ) OP1 c", "a prefix operator binds tighter than a chain, a chain tighter than any infix operator"},
 	{"a . p OP1 b", "( a . p ) OP1 b", "a chain binds tighter than any infix operator"},
 	{"a OP1 b . p", "a OP1 ( b . p )", "a chain binds tighter than any infix operator"},
 	{"a OP1 b @ p ( c )", "a OP1 ( b @ p ( c ) )", "a chain binds tighter than any infix operator"},
-	{"- a [ b ]", "- ( a [ b ] )", "indexing binds tighter than a prefix operator"},
-	{"- f ( a )", "- ( f ( a ) )", "calling binds tighter than a prefix operator"},
+	{"PFX a [ b ]", "PFX ( a [ b ] )", "indexing binds tighter than a prefix operator"},
+	{"PFX f ( a )", "PFX ( f ( a ) )", "calling binds tighter than a prefix operator"},
 	{"a OP1 f ( b ) OP2 c [ d ]", "GROUP3 a | f ( b ) | c [ d ]", "calls and indexing are operands of infix operators"},
 	{"x := a OP1 b", "x := ( a OP1 b )", "assignment binds looser than any infix operator"},
 	{"x += a OP1 b", "x += ( a OP1 b )", "compound assignment binds looser than any infix operator"},
@@ -238,11 +238,16 @@ var vTemplates = []vTemplate{
 	{"a OP1 b if c OP2 d", "( a OP1 b ) if ( c OP2 d )", "if binds looser than any infix operator"},
 	{"x := a if c else b", "( x := a ) if c else b", "if/else binds looser than assignment"},
 	{"return a if c OP1 d", "return a if ( c OP1 d )", "a guarded jump takes the whole condition"},
-	{"- a ** b", "( - a ) ** b", "a prefix operator binds tighter than **"},
+	{"PFX a ** b", "( PFX a ) ** b", "a prefix operator binds tighter than **"},
 	{"a OP1 ( b OP2 c )", "a OP1 ( b OP2 c )", "grouping is kept as written"},
 	{"f ( a OP1 b , c OP2 d )", "f ( ( a OP1 b ) , ( c OP2 d ) )", "arguments are whole expressions"},
 	{"a [ b OP1 c ]", "a [ ( b OP1 c ) ]", "an index is a whole expression"},
+	{"a OP1 PFX b OP2 c", "GROUP3 a | ( PFX b ) | c", "a prefix operator applies to its operand only, wherever it stands"},
+	{"PFX PFX a OP1 b", "( PFX ( PFX a ) ) OP1 b", "stacked prefix operators bind tighter than any infix operator"},
+	{"x := PFX a OP1 b", "x := ( ( PFX a ) OP1 b )", "a prefix operator binds tighter than any infix operator (right-hand side of an assignment)"},
 }
+
+var vPrefix = []string{"-", "+", "!", "/~"}
 
 // VH_C02_mixed: template t with solver-chosen infix operators in its OP slots.
 func VH_C02_mixed(t int) {
@@ -255,10 +260,16 @@ func VH_C02_mixed(t int) {
 		// third slot: one representative operator per precedence level
 		ops[2] = vLevels[rt.Choice(len(vLevels))]
 	}
+	pfx := ""
+	if strings.Contains(tp.written, "PFX") {
+		pfx = vPrefix[rt.Choice(len(vPrefix))]
+	}
 	sub := func(s string) []string {
 		var out []string
 		for _, w := range strings.Fields(s) {
 			switch w {
+			case "PFX":
+				w = pfx
 			case "OP1":
 				w = ops[0]
 			case "OP2":
@@ -275,7 +286,7 @@ func VH_C02_mixed(t int) {
 	if strings.HasPrefix(tp.grouped, "GROUP3 ") {
 		var atoms [][]string
 		for _, a := range strings.Split(strings.TrimPrefix(tp.grouped, "GROUP3 "), "|") {
-			atoms = append(atoms, strings.Fields(a))
+			atoms = append(atoms, sub(a))
 		}
 		grouped = vGroup(atoms, ops[:2])
 	} else {
